@@ -416,6 +416,10 @@ func Run(c *hx.Ctx) {
 		h1segCases(c)
 		return
 	}
+	if os.Getenv("VERIF_C07_ONLY") == "boltmix" { // development aid: only the mixed bolt v1 / v2 streams
+		boltmixCases(c)
+		return
+	}
 	if os.Getenv("VERIF_C07_ONLY") == "h1cont" { // development aid: only the Expect: 100-continue cases of kind h1seg
 		h1contCases(c)
 		return
@@ -522,4 +526,6 @@ func Run(c *hx.Ctx) {
 	h1segCases(c)
 	// HTTP/1 `Expect: 100-continue`: the two-phase read of the server serve loop (h1cont.go; kind h1seg, side exp)
 	h1contCases(c)
+	// xprotocol: bolt v1 frames of every length class on a boltv2 connection and vice versa (boltmix.go; kinds seg / cuts)
+	boltmixCases(c)
 }
